@@ -2,10 +2,9 @@ CONSTANTS
   Nodes = {0, 1}
   AP = {"p"}
   MaxObjs = 1
-  Mutators = FALSE
+  Mutators = TRUE
   Depth = 2
 SPECIFICATION Spec
 CONSTRAINT Bound
 INVARIANT KripkeInv
-PROPERTY Pure
 CHECK_DEADLOCK FALSE
